@@ -30,7 +30,7 @@ from vlib.core import enc_str, enc_bool, enc_opt, enc_list, enc_N
 
 HEADER = """From Coq Require Import List NArith ZArith Bool String.
 Import ListNotations.
-Require Import RV.Lib.PyStr RV.Model.ContentLine RV.Model.Vobj RV.Model.Export RV.Model.Split.
+Require Import RV.Lib.PyStr RV.Model.ContentLine RV.Model.Vobj RV.Model.Export RV.Model.Split RV.Model.Codec.
 Open Scope N_scope.
 Definition eq_os (a b : option pystr) := match a, b with Some x, Some y => eqs x y | None, None => true | _, _ => false end.
 (* model vs implementation on an upload: when the implementation ACCEPTS, the model must give the same bytes; when it
@@ -298,6 +298,33 @@ def run(ctx):
         corr(ctx, "text_values_" + nm, "text_values %d" % ord(sep), [(t, vi.stringToTextValues(t, listSeparator=sep)) for t in tvals],
              enc_str, enc_list(enc_str), "eq_ls")
     corr(ctx, "backslash_escape", "backslash_escape", [(t, vb.backslashEscape(t)) for t in tvals], enc_str, enc_str, "eqs")
+
+    # ------------------------------------------------------------ the two concrete charsets of Model/Codec.v
+    def py_enc(t, cs):
+        try:
+            return list(t.encode(cs))
+        except UnicodeError:
+            return None
+
+    def py_dec(b, cs):
+        try:
+            return bytes(b).decode(cs)
+        except UnicodeError:
+            return None
+    texts = ["".join(rng.choice(["a", "\x7f", "\x80", "\xe9", "\xff", "\u0100", "\u07ff", "\u0800", "\u20ac", "\ud7ff", "\ud800", "\udfff", "\ue000",
+                                  "\uffff", "\U00010000", "\U0001f600", "\U0010ffff"]) for _ in range(rng.randint(0, 6))) for _ in range(ctx.n(150, 1500))]
+    blobs = []
+    for t in texts:
+        b = py_enc(t, "utf-8") or [rng.randrange(256) for _ in range(rng.randint(1, 5))]
+        if b and rng.random() < 0.5:
+            k = rng.randrange(len(b))
+            b = b[:k] + rng.choice([[], [b[k] ^ 0x40], [0xC0, 0x80], [0xED, 0xA0, 0x80], [0xF4, 0x90, 0x80, 0x80], [0xE0, 0x80, 0x80], [0xF5], [0x80]]) + b[k + 1:]
+        blobs.append(b)
+    enc_b = lambda b: "(None : option (list N))" if b is None else "(Some %s : option (list N))" % core.enc_bytes(b)
+    corr(ctx, "utf8_enc", "enc utf8", [(t, py_enc(t, "utf-8")) for t in texts], enc_str, enc_b, "eq_os")
+    corr(ctx, "utf8_dec", "dec utf8", [(b, py_dec(b, "utf-8")) for b in blobs], core.enc_bytes, enc_opt(enc_str), "eq_os")
+    corr(ctx, "latin1_enc", "enc latin1", [(t, py_enc(t, "latin-1")) for t in texts], enc_str, enc_b, "eq_os")
+    corr(ctx, "latin1_dec", "dec latin1", [(b, py_dec(b, "latin-1")) for b in blobs], core.enc_bytes, enc_opt(enc_str), "eq_os")
 
     # ------------------------------------------------------------ read_components text clean-ups
     photo_lines = []
